@@ -246,7 +246,9 @@ func runC06(ctx *Ctx, idx int) {
 		kind = "none" // key-only index: only the 0.5.10/0.5.11 layouts can carry it
 	}
 	style := 0
-	if r.Chance(1, 4) {
+	if r.Chance(1, 4) && n < 50000 {
+		// (the two size cases keep distinct values: a run pattern would
+		// de-duplicate them below the node counts they exist for)
 		style = 1 + r.Intn(4)
 	}
 	vals := genVals(r, kind, n, style)
